@@ -22,6 +22,7 @@ import (
 	"strings"
 	"sync"
 	"time"
+	"reflect"
 	"unicode/utf16"
 	"unicode/utf8"
 
@@ -225,6 +226,12 @@ type Case struct {
 	Tags      []ARow  `json:"tags"`
 	Read      []RSpan `json:"read"`
 	ReadAll   int     `json:"read_all"`  // spans returned by ONE OutputQuery over all rows in order
+	// ReadAllDiff: first difference between the spans of that one call and the rows decoded one by one ("" = none)
+	ReadAllDiff string `json:"read_all_diff,omitempty"`
+	// QueryK / QueryBad / QueryType3: the span ids (hex) one OutputQuery returns when row QueryK holds a payload that is no span / has payload type 3
+	QueryK     int      `json:"query_k"`
+	QueryBad   []string `json:"query_bad"`
+	QueryType3 []string `json:"query_type3"`
 	Responses int     `json:"responses"` // parser responses carrying rows (> 1 = mid-request flush)
 	// Resp: per parser response that carried rows, in order: [trace rows, tag rows] as the parser built them (before the insert services)
 	Resp [][2]int `json:"resp"`
@@ -234,6 +241,8 @@ type Case struct {
 	PayLens []int `json:"pay_lens"`
 	// PayFp: OTLP: two polynomial fingerprints of every stored payload's bytes (see fp61); the Coq model computes the same over its own encoding
 	PayFp [][2]uint64 `json:"pay_fp"`
+	// PayFirst: the first byte of every stored payload (-1 = empty): parseOTLP reads a payload beginning with '{' as the legacy JSON form
+	PayFirst []int `json:"pay_first"`
 }
 
 // ---------------------------------------------------------------- conversions abstract <-> protobuf
@@ -420,7 +429,26 @@ func otlpBody(rs []ORes) []byte {
 var escMode int
 
 func jstr(s string) string {
-	if escMode == 0 || !utf8.ValidString(s) {
+	if !utf8.ValidString(s) {
+		// bytes that are not UTF-8 go into the text as they are (both JSON readers pass them through); only what JSON demands is escaped
+		var sb strings.Builder
+		sb.WriteByte('"')
+		for i := 0; i < len(s); i++ {
+			switch c := s[i]; {
+			case c == '"':
+				sb.WriteString(`\"`)
+			case c == '\\':
+				sb.WriteString(`\\`)
+			case c < 0x20:
+				fmt.Fprintf(&sb, `\u%04x`, c)
+			default:
+				sb.WriteByte(c)
+			}
+		}
+		sb.WriteByte('"')
+		return sb.String()
+	}
+	if escMode == 0 {
 		b, _ := json.Marshal(s)
 		return string(b)
 	}
@@ -1068,7 +1096,7 @@ func run(c *Case, silence bool) {
 	// the parser gets its own copy of the body (what it retains must not alias our buffers) delivered in segments
 	sr := &segReader{b: append([]byte{}, body...), r: hx.Rand(c.SegSeed), mode: c.SegMode}
 	err, spans, tags, resp := collect(parser(context.Background(), sr, nil))
-	c.Resp, c.TextLens, c.PayLens, c.PayFp = resp, []int{}, []int{}, [][2]uint64{}
+	c.Resp, c.TextLens, c.PayLens, c.PayFp, c.PayFirst = resp, []int{}, []int{}, [][2]uint64{}, []int{}
 	if c.Resp == nil {
 		c.Resp = [][2]int{}
 	}
@@ -1105,6 +1133,11 @@ func run(c *Case, silence bool) {
 			p := []byte(pl)
 			idx := len(c.Spans)
 			c.PayLens = append(c.PayLens, len(p))
+			if len(p) > 0 {
+				c.PayFirst = append(c.PayFirst, int(p[0]))
+			} else {
+				c.PayFirst = append(c.PayFirst, -1)
+			}
 			if c.Fmt == "otlp" {
 				c.PayFp = append(c.PayFp, fp61(p))
 			}
@@ -1223,9 +1256,57 @@ func run(c *Case, silence bool) {
 			allSafe = false
 		}
 	}
+	c.ReadAllDiff, c.QueryK, c.QueryBad, c.QueryType3 = "", -1, nil, nil
 	if allSafe && len(dbrows) > 0 {
 		out, _ := readRows(dbrows)
 		c.ReadAll = len(out)
+		// the spans of the ONE call (all gathered before any is looked at: a span that kept a reference into the reused parser's buffers
+		// would have been overwritten by the rows decoded after it) against the rows decoded one by one
+		for i := range out {
+			if i >= len(c.Read) {
+				break
+			}
+			x := out[i]
+			if c.Fmt == "otlp" {
+				sort.SliceStable(x.Attrs, func(a, b int) bool { return x.Attrs[a].K < x.Attrs[b].K })
+			}
+			if d := rspanDiff(c.Read[i], x); d != "" {
+				d = strings.Replace(strings.Replace(d, "protobuf form reads", "decoded alone:", 1), "JSON form reads", "in the one call:", 1)
+				c.ReadAllDiff = fmt.Sprintf("row %d: %s", i, d)
+				if len(c.ReadAllDiff) > 1200 {
+					c.ReadAllDiff = c.ReadAllDiff[:1200]
+				}
+				break
+			}
+		}
+		// OutputQuery's loop on rows that do not decode: row k with a payload that is no span (the output ends there) and row k with an
+		// unknown payload type (the row is passed over); observed = the span ids returned, in order
+		k := (len(body) + c.ID) % len(dbrows)
+		c.QueryK = k
+		ids := func(rs [][]driver.Value) []string {
+			out, _ := readRows(rs)
+			l := []string{}
+			for _, x := range out {
+				l = append(l, x.Sid)
+			}
+			return l
+		}
+		mut := func(f func(r []driver.Value)) [][]driver.Value {
+			cp := make([][]driver.Value, len(dbrows))
+			for i, r := range dbrows {
+				cp[i] = append([]driver.Value{}, r...)
+			}
+			f(cp[k])
+			return cp
+		}
+		c.QueryBad = ids(mut(func(r []driver.Value) {
+			if r[5].(int64) == 2 {
+				r[6] = "\xff\xff"
+			} else {
+				r[6] = "{"
+			}
+		}))
+		c.QueryType3 = ids(mut(func(r []driver.Value) { r[5] = int64(3) }))
 	} else {
 		c.ReadAll = -1
 	}
@@ -1487,10 +1568,21 @@ func genHex(r *rand.Rand, n int) string {
 	return string(b)
 }
 
+// genZStr: a string of a Zipkin request; one in twelve is not UTF-8 (a lone continuation byte, a truncated sequence, Latin-1, an encoded
+// surrogate, an overlong form, 0xFF): the write side (jx) and the read side (fastjson) both hand such bytes on unchanged
+var badUTF8 = []string{"a\xffb", "\xc3", "caf\xe9", "\xed\xa0\x80", "ok\x80", "\xc0\xaf", "\xf0\x9f\x98", "x\xfe\xffy\"q"}
+
+func genZStr(r *rand.Rand) string {
+	if r.Intn(12) == 0 {
+		return pick(r, badUTF8)
+	}
+	return genStr(r)
+}
+
 func genJunk(r *rand.Rand, depth int) JV {
 	switch r.Intn(7) {
 	case 0:
-		return js(genStr(r))
+		return js(genZStr(r))
 	case 1:
 		return ji(int64(r.Intn(1000)))
 	case 2:
@@ -1520,7 +1612,7 @@ func genJunk(r *rand.Rand, depth int) JV {
 func genEndpoint(r *rand.Rand) JV {
 	o := JV{T: "o", O: []JKV{}}
 	if r.Intn(5) != 0 {
-		o.O = append(o.O, f("serviceName", js(pick(r, []string{"frontend", "cart", "db", "", "svc-1", "é"}))))
+		o.O = append(o.O, f("serviceName", js(pick(r, []string{"frontend", "cart", "db", "", "svc-1", "é", "svc\xe9"}))))
 	}
 	if r.Intn(2) == 0 {
 		o.O = append(o.O, f("ipv4", js("10.0.0."+strconv.Itoa(r.Intn(255)))))
@@ -1642,7 +1734,7 @@ func genZSpan(r *rand.Rand, malformed bool, strict bool) JV {
 		fs = append(fs, f("parentId", js(genHex(r, pl))))
 	}
 	if r.Intn(8) != 0 {
-		fs = append(fs, f("name", js(genStr(r))))
+		fs = append(fs, f("name", js(genZStr(r))))
 	}
 	if r.Intn(10) != 0 {
 		fs = append(fs, f("timestamp", genTime(r, 1727700000000000)))
@@ -1669,7 +1761,10 @@ func genZSpan(r *rand.Rand, malformed bool, strict bool) JV {
 			if !strict && r.Intn(6) == 0 {
 				tags.O = append(tags.O, f(k, genJunk(r, 1)))
 			} else {
-				tags.O = append(tags.O, f(k, js(genStr(r))))
+				if r.Intn(25) == 0 { // a member name that is not UTF-8
+					k = pick(r, badUTF8) + strconv.Itoa(len(tags.O))
+				}
+				tags.O = append(tags.O, f(k, js(genZStr(r))))
 			}
 		}
 		fs = append(fs, f("tags", tags))
@@ -2034,6 +2129,50 @@ func gen(r *rand.Rand, id int, depth int) Case {
 	return c
 }
 
+// ---------------------------------------------------------------- byte-safe transport of strings
+// encoding/json replaces bytes that are not UTF-8 by U+FFFD; the strings of a case (inputs, tokens, rows, read-back) are byte strings.
+// armor: every such string of a case becomes "\x00hex:<hex of its bytes>" before the case is printed; unarmor reverses it on cases read back.
+const armorMark = "\x00hex:"
+
+func walkStrings(v reflect.Value, fn func(string) string) {
+	switch v.Kind() {
+	case reflect.Ptr, reflect.Interface:
+		if !v.IsNil() {
+			walkStrings(v.Elem(), fn)
+		}
+	case reflect.Struct:
+		for i := 0; i < v.NumField(); i++ {
+			walkStrings(v.Field(i), fn)
+		}
+	case reflect.Slice, reflect.Array:
+		for i := 0; i < v.Len(); i++ {
+			walkStrings(v.Index(i), fn)
+		}
+	case reflect.String:
+		if v.CanSet() {
+			v.SetString(fn(v.String()))
+		}
+	}
+}
+func armor(c *Case) {
+	walkStrings(reflect.ValueOf(c), func(s string) string {
+		if utf8.ValidString(s) {
+			return s
+		}
+		return armorMark + hex.EncodeToString([]byte(s))
+	})
+}
+func unarmor(c *Case) {
+	walkStrings(reflect.ValueOf(c), func(s string) string {
+		if strings.HasPrefix(s, armorMark) {
+			if b, err := hex.DecodeString(s[len(armorMark):]); err == nil {
+				return string(b)
+			}
+		}
+		return s
+	})
+}
+
 func main() {
 	time.Local = time.UTC
 	sql.Register("verifscript", drv{})
@@ -2068,7 +2207,9 @@ func main() {
 			if err := json.Unmarshal(b, &c); err != nil {
 				panic(err)
 			}
+			unarmor(&c)
 			run(&c, true)
+			armor(&c)
 			out.Put(c)
 		})
 		return
@@ -2077,6 +2218,7 @@ func main() {
 	for i := 0; i < fl.N; i++ {
 		c := gen(r, i, depth)
 		run(&c, true)
+		armor(&c)
 		out.Put(c)
 	}
 }
